@@ -48,6 +48,10 @@ Emit(n) == /\ n \in Reach(g, SeqSet(roots)) \ SeqSet(emitted)
 GNext == \E n \in Nodes : Emit(n)
 GSpec == GInit /\ [][GNext]_gvars
 
+\* a one-state behaviour for the configurations that only evaluate an ASSUME (laws, case emission, traces)
+DSpec == /\ g = [n \in Nodes |-> {}] /\ roots = <<CHOOSE n \in Nodes : TRUE>> /\ emitted = <<>>
+         /\ [][UNCHANGED gvars]_gvars
+
 GDone == ~ENABLED GNext
 \* every complete behaviour of the machine is a valid order (and it never gets stuck early:
 \* a DAG always has an emittable node until the closure is exhausted)
